@@ -399,6 +399,20 @@ fn run_case(case: &Case, ev: &Evidence) -> CaseResult {
                     (_, Err(_)) => late_dup += 1,
                 }
             }
+            if round == 0 && case.c(9) % 2 == 0 {
+                // a write that fails (the storage refuses it once): what the receiver has consumed stays consumed
+                let party = &mut w.parties[r];
+                party.ctl.arm(0, -1);
+                let res = guard(|| party.gm().write_to_storage());
+                let fired = party.ctl.fired.load(std::sync::atomic::Ordering::SeqCst);
+                party.ctl.reset();
+                match res {
+                    Err(e) if e.is_panic() => return Err(panic_failure(P, "write_to_storage(storage fault)", &e)),
+                    Err(_) if fired > 0 => ev.class("failed_writes_between_delivery_and_replay"),
+                    Err(e) => return Err(setup_failure(P, "write_to_storage", &e)),
+                    Ok(()) => {}
+                }
+            }
             if round == 1 {
                 w.save(r).map_err(|e| setup_failure(P, "write_to_storage", &e))?;
                 w.reload(r).map_err(|e| setup_failure(P, "load_group", &e))?;
@@ -487,7 +501,7 @@ pub fn run(ctx: &Ctx) -> ! {
          exactly-once model per (receiver, sender, ratchet): {consumed generations, ratchet position}; a delivery must succeed iff its generation is unconsumed and at most 1024 ahead, yielding \
          the original payload and sender; a consumed generation must be rejected; beyond the window only no-panic is demanded; at the end every message has been accepted exactly once by every \
          receiver. Recorder oracle: all (key, nonce) pairs of all AEAD encryptions of all members are pairwise distinct; keys used for application content and handshake content are disjoint. \
-         Senders also build detached commits and discard them: no AEAD key may occur in two seals. In phase 2 the receiver is often the committer and takes half of the late messages while its commit is pending. Clone check: two copies of a sender encrypting the same generation use different nonces (provider randomness seeded). Non-trivial = schedule with >= 1 out-of-order delivery and >= 1 duplicate.",
+         Senders also build detached commits and discard them: no AEAD key may occur in two seals. In phase 2 the receiver is often the committer and takes half of the late messages while its commit is pending. Between first delivery and replay of the late messages the receiver's write sometimes meets a storage that fails once. Clone check: two copies of a sender encrypting the same generation use different nonces (provider randomness seeded). Non-trivial = schedule with >= 1 out-of-order delivery and >= 1 duplicate.",
     );
     ev.assume("state rollback (reloading an older snapshot after having sent) is the application's fault and is not modelled: reloads always follow a write");
     let run = |c: &Case| run_case(c, &ev);
